@@ -67,6 +67,13 @@ impl RespParser {
             ]))));
         }
         
+        // The beginning of a raw PING that has not arrived completely yet: wait for the rest, so
+        // that the result does not depend on how the bytes were split into reads
+        let rest = &self.buffer[self.position..];
+        if rest.len() < 4 && b"PING".starts_with(rest) {
+            return Ok(None);
+        }
+        
         // Handle normal RESP protocol
         match parse_frame(&self.buffer[self.position..])? {
             Some((frame, consumed)) => {
